@@ -10,7 +10,7 @@ def reval(c):
     if not r:
         return ""
     s = "%s: %d violation(s), %d with a failing input" % (
-        "DETECTED" if r["check_exit"] == 1 and r["violations"] else "NOT DETECTED", r["violations"],
+        "DETECTED" if r["check_exit"] == 1 and r["violations"] else ("not property-breaking on this HEAD" if r["demo_with_patch"] == "PASS" else "NOT DETECTED"), r["violations"],
         r["violations_with_failing_input"])
     if r["demo_with_patch"] == "PASS":
         s += " (demo no longer fails on this HEAD: " + c.get("status_on_current_head", "")[:120] + ")"
